@@ -55,10 +55,17 @@ pub fn random_case(rng: &mut Rng) -> Case {
     // in a third of the cases some rules carry triggers that the one request satisfies (client ip inside several
     // ranges of the same rule, method list, header condition): such rules sit in several buckets of the router
     let with_triggers = rng.chance(1, 3);
+    // in a quarter of the cases the router ignores letter case and half of the rules are pattern rules
+    let pattern_paths = rng.chance(1, 4);
     let rules = (0..n.min(ids.len()))
         .map(|i| {
             let mut r = rule_from_grid(ids[i], *rng.pick(few_ranks), random_grid(rng));
             r.path = Template::parse("/a");
+            if pattern_paths && rng.coin() {
+                // a pattern rule whose literal text is upper-case: matches "/a" under the case policy only
+                r.path = Template::parse("/A@opt");
+                r.markers = vec![crate::world::MarkerSpec { name: "opt".into(), regex: "x?".into(), transformers: vec![] }];
+            }
             if with_triggers && rng.coin() {
                 use IpSpec::{In, NotIn};
                 match rng.below(6) {
@@ -150,7 +157,10 @@ pub fn check(case: &Case) -> Result<Stats, String> {
     }
 
     // (ii) routers with permuted insertion orders, (iii) different update histories with the same live set
-    let cfg = Cfg::plain();
+    let mut cfg = Cfg::plain();
+    if case.rules.iter().any(|r| !r.markers.is_empty()) {
+        cfg.ignore_path_and_query_case = true;
+    }
     let config = cfg.build();
     // the one request satisfies every trigger the generator hands out
     let mut rich = ReqSpec::get("/a");
@@ -158,12 +168,44 @@ pub fn check(case: &Case) -> Result<Stats, String> {
     rich.method = Some("GET".to_string());
     rich.headers = vec![("X-A".to_string(), "Foo".to_string())];
     let request = rich.build(&config);
-    let n_routers = if k <= 6 { 8 } else { 4 };
+    let n_routers = if k <= 6 { 12 } else { 6 };
     for variant in 0..n_routers {
         let mut order: Vec<usize> = (0..k).collect();
         rng.shuffle(&mut order);
         let mut router = Router::<Rule>::from_config(cfg.build());
-        match variant % 4 {
+        match variant % 6 {
+            4 => {
+                // an earlier version of some rules (several methods, other effects) is live first, then replaced the
+                // way a single-rule update does it: remove(id), insert(new version)
+                for i in &order {
+                    let r = &case.rules[*i];
+                    if rng.coin() {
+                        let mut old = r.clone();
+                        old.methods = Some(vec!["GET".into(), "PUT".into(), "POST".into()]);
+                        old.effects.status_code = Some(307);
+                        old.effects.header_filters = vec![("add".to_string(), "X-Old-Version".to_string(), "1".to_string())];
+                        router.insert(old.to_rule());
+                        router.remove(&r.id);
+                    }
+                    router.insert(r.to_rule());
+                }
+            }
+            5 => {
+                // everything inserted, everything removed again (one by one or in one batch), everything re-inserted
+                for i in &order {
+                    router.insert(case.rules[*i].to_rule());
+                }
+                if rng.coin() {
+                    for i in order.iter().rev() {
+                        router.remove(&case.rules[*i].id);
+                    }
+                } else {
+                    router.apply_change_set(vec![], vec![], case.rules.iter().map(|r| r.id.clone()).collect());
+                }
+                for i in &order {
+                    router.insert(case.rules[*i].to_rule());
+                }
+            }
             3 => {
                 // earlier versions of some rules (another trigger set, still satisfied by the request, other
                 // effects) are live first; an update-only change-set (nothing deleted) brings the final versions
